@@ -115,6 +115,26 @@ CHECKS = {
               "above 128 bits), see known_findings.json."),
         technique="TLA+/TLC: executable Curve model + EccOps semantics generate scenarios; recorded gadget runs (honest and tampered via H1) validated as traces",
     ),
+    "C07": dict(
+        category="fault_enumeration",
+        text=("Hashes.tla defines SHA-256 and SHA-512 from FIPS 180-4 over BigNat - padding, message schedule, compression, and "
+              "the constants as the first 32/64 bits of the fractional parts of the square and cube roots of the first primes, "
+              "computed by integer roots in the specification itself - and Poseidon (textbook x^5 permutation, width 3, rate 2, 8 "
+              "full and 60 partial rounds, the library's sponge and its transcript variant) with the MDS matrix and round constants "
+              "the code publishes taken as data. MC_Hashes model-checks the padding for every message length 0..200 (thorough "
+              "0..400) and both word sizes and generates the lengths to replay (all padding-boundary residues). The driver runs the "
+              "standard library's sha2_256, sha2_512, sha3_256, keccak_256, blake2b_256/512 and poseidon (0..12 inputs), and the "
+              "stand-alone variable-length SHA-256 gadget (bounds 128 and 256, actual lengths on every boundary residue below and "
+              "above one block, adversarial non-zero filler around the data), under MockProver with message and digest exposed as "
+              "public inputs. Hash_Trace recomputes the digest from the definitions on the message the circuit exposes (for "
+              "SHA3/Keccak/BLAKE2b an independent crate's digest stands in for the definition), for honest runs and under tamper "
+              "plans (hook H1); the off-circuit Poseidon hash and the transcript sponge are checked against the same definition."),
+        design_ref="DESIGN.md 4/C07",
+        note=("Not covered: RIPEMD-160, the variable-length Poseidon gadget, partial-round skipping as such (only through results), "
+              "the generation of the Poseidon constants; SHA3/Keccak/BLAKE2b have no TLA+ definition (reference crates); tamper plans "
+              "are sampled (the large chips make tens of thousands of assignments)."),
+        technique="TLA+/TLC: executable SHA-2 and Poseidon definitions over BigNat re-evaluate recorded gadget runs (honest and tampered via H1); padding model-checked",
+    ),
     "C08": dict(
         category="fault_enumeration",
         text=("PublicInputs.tla defines Encode/Decode for every exposable type (bit, byte, native, emulated elements of the "
